@@ -212,6 +212,6 @@ func init() {
 			"string literals are double-quoted, character literals hold one character, template literals use backquotes (the lexer's literal forms)",
 			"message compared after whitespace and '*' normalisation",
 		},
-		Sections: []engine.Section{{Name: "token-sequences", KQuick: -1, KThor: -1, Gen: c17Gen}},
+		Sections: []engine.Section{{Name: "token-sequences", KQuick: -1, KThor: -1, Gen: c17Gen}, {Name: "through-coca-todo", KQuick: 1, KThor: 2, Gen: cliTodoGen}},
 	})
 }
